@@ -640,6 +640,38 @@ def compare_model(case, res, mout, opmap):
     return None
 
 
+def mplex_line(case):
+    """driver line for the MPLEX layer model (coq/C02/MplexCache.v) of field mx, or None when the history
+    has calls the layer does not describe exactly (GD_HERE reads of mx, reads the return type cannot hold)"""
+    g = [f for f in case.get("derived", []) if f["kind"] == "X"]
+    if not g: return None
+    g = g[0]
+    sp = Spec(case)
+    if sp.shifted(g["in"]) or sp.shifted(g["cnt"]): return None
+    FO = sp.foff
+    evs = []; idx = []
+    for i, o in enumerate(case["ops"]):
+        if o[0] == "g" and o[1] in ("mx", "mxl"):
+            if o[2] == "H" or o[2] < 0: return None
+            if not sp.ok_type(o[1], o[2], o[3], o[4]): return None
+            rt = ALL_TYPES.index(o[4]) + (100 if o[4] in FLOAT_TYPES else 0)
+            if o[3] > 0:
+                evs.append("g,%d,%d,%d" % (rt, o[2], o[3])); idx.append(i if o[1] == "mx" else None)
+        elif o[0] == "p":
+            which = 0 if o[1] == g["in"] else 1 if o[1] == g["cnt"] else None
+            a = sp.data[o[1]]; j = o[2] - FO
+            if j < 0: continue
+            if j > len(a): a.extend([0] * (j - len(a)))
+            a[j:j + o[3]] = o[5][:o[3]]
+            if which is not None:
+                evs.append("p,%d,%d,%s" % (which, o[2], ":".join(str(v) for v in o[5][:o[3]]))); idx.append(None)
+    if not evs: return None
+    sp0 = Spec(case)
+    vin = [0] * FO + sp0.data[g["in"]]; vcnt = [0] * FO + sp0.data[g["cnt"]]
+    if not vin or not vcnt: return None
+    return "M %d 64 | %s | %s | %s" % (g["cval"], ",".join(map(str, vin)), ",".join(map(str, vcnt)), ";".join(evs)), idx
+
+
 def model_outputs(drv, cases_res, cfg, eager):
     lines = []; maps = []
     for case, res in cases_res:
@@ -851,6 +883,24 @@ def main():
                 continue
             model_bad.append((case, res, dm))
             model_dev[id(case)] = dm
+    # MPLEX layer model (cache, look-back, invalidation by putdata) on the histories it describes
+    mlines = []; mcases = []
+    for case, (rc1, out, res) in zip(cases, results):
+        if len(res) != len(case["ops"]) or case["enc"] == "sie": continue
+        ml = mplex_line(case)
+        if ml is not None: mlines.append(ml[0]); mcases.append((case, res, ml[1]))
+    mplex_bad = []
+    if mlines:
+        rcm, mout = run_model(drv, mlines)
+        for (case, res, idx), mo in zip(mcases, mout if rcm == 0 else []):
+            for j, m in enumerate(mo.split(";")):
+                i = idx[j] if j < len(idx) else None
+                if i is None: continue
+                got = impl_canon(res[i][0])
+                if got.startswith("E"): break
+                if m.strip() != got:
+                    mplex_bad.append((case, res, (i, m.strip(), got))); break
+    chk.cov["mplex_layer_histories"] = len(mlines)
     chk.cov["evaluations"] = evals
     chk.cov["distinct_nontrivial"] = len(nontriv)
     chk.cov["histories"] = len(cases)
@@ -916,6 +966,14 @@ def main():
                           i, case["ops"][i], got[:100], m0[:100]),
                       {"kind": "model-vs-impl", "case": case, "op_index": i, "impl": got, "model": m0,
                        "theorem": "step of coq/C02/Model.v no longer describes the code"}, found=False)
+    for case, res, (i, m0, got) in mplex_bad[:3]:
+        if id(case) in spec_bad and spec_bad[id(case)][2][0][0] <= i:
+            continue
+        chk.violation("model/mplex-layer/%s" % case["enc"],
+                      "correspondence broken: MPLEX layer (coq/C02/MplexCache.v): op %d %s: implementation %s, model %s" % (
+                          i, case["ops"][i], got[:100], m0[:100]),
+                      {"kind": "model-vs-impl", "case": case, "op_index": i, "impl": got, "model": m0,
+                       "theorem": "mplex_read of coq/C02/MplexCache.v no longer describes _GD_DoMplex"}, found=False)
     if trans_problems and not found_any:
         chk.violation("translator", "tr_c02cfg.py cannot recognise the code: " + "; ".join(trans_problems[:3]),
                       {"kind": "translator", "problems": trans_problems}, found=False)
